@@ -1351,6 +1351,12 @@ func SelectExpr(query *Query, current Map, expr *sqlparser.SelectExprs, opts ...
 						if slot, ok := data[name].(*any); !ok || slot != valueRaw {
 							return nil
 						}
+						// the call resolved to the omit marker (an effect-only argument such as
+						// a RAISE_WHEN that did not fire): like its synchronous form, no column
+						if _, ok := value.(Ommit); ok {
+							delete(data, name)
+							return nil
+						}
 						data[name] = value
 						return nil
 					})
